@@ -32,10 +32,17 @@ pub fn safe_parse(text: &str) -> Result<grammar::Module, String> {
 /// Where pyxis's parser says the first error of `text` is: (line, column + 1), the form in which
 /// `add_file` reports it. `None` when the text parses (or the parser panics).
 pub fn parse_error_position(text: &str) -> Option<(usize, usize, String)> {
+    parse_error_span(text).map(|(l, c, m, _)| (l, c, m))
+}
+
+/// As `parse_error_position`, with a flag telling whether the parser could point at a token
+/// (`false` for an error about the end of the input, whose span is empty).
+pub fn parse_error_span(text: &str) -> Option<(usize, usize, String, bool)> {
     match std::panic::catch_unwind(|| pyxis::parser::parse_str(text)) {
         Ok(Err(e)) => {
             let lc = e.span().start();
-            Some((lc.line, lc.column + 1, e.to_string()))
+            let at_token = e.span().start() != e.span().end();
+            Some((lc.line, lc.column + 1, e.to_string(), at_token))
         }
         _ => None,
     }
